@@ -1,8 +1,246 @@
-//! stub — to be written
-use crate::core::{Acc, Ctx};
-use serde_json::Value;
-pub const RULE: &str = "";
-pub const ASSUMPTIONS: &[&str] = &[];
-pub fn bounds(_quick: bool) -> Value { Value::Null }
-pub fn run(_ctx: &Ctx, _acc: &mut Acc) {}
-pub fn replay(_v: &Value) -> Option<(bool, String)> { None }
+//! C05 — damaged or invalid streams are reported as errors, never decoded silently.
+//! Shapes G + E: every single-bit flip in the audio frames and every truncation point of every corpus file;
+//! every must-reject class built by fgen with valid checksums (singles, and pairs with every valid deviation).
+use crate::codec::{decode, err_class, ReaderKind};
+use crate::core::{for_each_deviation, guarded, hex, unhex, Acc, Ctx};
+use crate::corpus::{damage_corpus, TestFile};
+use crate::gspace::{bad_knobs, make_spec, menus, NAMES};
+use flac_codec::decode::{verify_reader, Verified};
+use serde_json::{json, Value};
+use vph::fgen;
+use vph::refdec;
+
+pub const RULE: &str = "(1) for each file of the damage corpus (crate-encoded mono/stereo/multichannel files with and without seek table and with unknown total; fgen-built files covering verbatim/constant/fixed/LPC subframes, wasted bits, escaped partitions, 5-bit Rice method, variable blocking and all stereo modes): EVERY single-bit flip at or after the first frame byte and EVERY truncation length, decoded through 4 reader front-ends + verify_reader, plus every bit of the stored MD5; (2) every must-reject class (bad sync, reserved header bit, reserved/illegal block-size, rate, channel, depth codes, malformed coded numbers, wrong CRC-8/CRC-16, header fields inconsistent with STREAMINFO, frame exceeding the declared total, subframe pad bit, reserved subframe types, wasted bits ≥ depth, precision 1111, negative shift, reserved coding methods, illegal partition orders) generated with valid checksums in frame 0 and in the last frame of the plain stream and of every stream within 1 (thorough 2) valid deviations; oracle: Ok ⇒ the independent decoder accepts the altered bytes with the same PCM; Err ⇒ samples delivered before it are a whole-frame prefix of the original and contain nothing of a must-reject frame; MD5Match only if the decoded PCM hashes to the stored digest";
+pub const ASSUMPTIONS: &[&str] = &["damage limited to one bit flip or one truncation per file; two simultaneous malformations only as (malformation × valid deviation)", "codes a decoder may but need not reject (non-zero padding, residual = -2^31, out-of-range reconstructed samples, short non-final blocks of 15 samples, zero-length first partition) impose no verdict"];
+pub fn bounds(quick: bool) -> Value {
+    json!({"corpus_files": if quick { "13" } else { "32" }, "bit_flips": "every bit from the first frame byte on", "truncations": "every length", "malformed_pairs": if quick { "bad × ≤1 valid deviation" } else { "bad × ≤2 valid deviations" }})
+}
+
+const READERS: [ReaderKind; 4] = [ReaderKind::SampleFill, ReaderKind::ByteLE, ReaderKind::Channel, ReaderKind::SampleRead];
+const MAY_ACCEPT: [&str; 4] = ["residual-min", "residual-range", "sample-range", "short-nonfinal-block"];
+
+/// `orig_pcm` + cumulative interleaved sample counts per original frame; `bad_from`: index of the first frame whose
+/// samples must not be delivered (usize::MAX = none).
+pub fn judge(altered: &[u8], orig_pcm: &[i32], cum: &[usize], bad_from: usize) -> Option<(String, String)> {
+    let reference = guarded(|| refdec::decode(altered));
+    let reference = match reference {
+        Ok(r) => r,
+        Err(p) => return Some(("machinery-refdec-panic".into(), p)),
+    };
+    for r in READERS {
+        match decode(r, altered) {
+            Ok(d) => match &reference {
+                Ok(st) => {
+                    if st.pcm != d.pcm {
+                        return Some(("decodes-differently-from-independent-decoder".into(), format!("{r:?} returns Ok with {} samples, the independent decoder gives {} (first difference at {:?})", d.pcm.len(), st.pcm.len(), d.pcm.iter().zip(&st.pcm).position(|(a, b)| a != b))));
+                    }
+                }
+                Err(rej) if MAY_ACCEPT.contains(&rej.code) => {}
+                Err(rej) => return Some((format!("invalid-stream-decoded-silently|{}", rej.code), format!("{r:?} returns Ok ({} samples) for bytes the independent decoder rejects: {} ({})", d.pcm.len(), rej.code, rej.msg))),
+            },
+            Err((e, got)) => {
+                if e.starts_with("panic:") {
+                    return Some((format!("panic@{}", crate::core::panic_loc(&e)), format!("{r:?}: {e}")));
+                }
+                // delivered-before-error must be a whole-frame prefix of the original audio
+                let ok_prefix = got.len() <= orig_pcm.len() && got[..] == orig_pcm[..got.len()] && (got.is_empty() || cum.contains(&got.len()));
+                if !ok_prefix {
+                    return Some(("garbage-delivered-before-error".into(), format!("{r:?} delivered {} samples before '{}' that are not a whole-frame prefix of the original ({:?})", got.len(), err_class(&e), cum)));
+                }
+                if bad_from != usize::MAX {
+                    let limit = if bad_from == 0 { 0 } else { cum[bad_from - 1] };
+                    if got.len() > limit {
+                        return Some(("must-reject-frame-delivered".into(), format!("{r:?} delivered {} samples (frames up to #{}) although frame #{bad_from} is illegal; error afterwards: {}", got.len(), cum.iter().position(|c| *c == got.len()).unwrap_or(99), err_class(&e))));
+                    }
+                }
+            }
+        }
+    }
+    // verify_reader: MD5Match only for PCM that really hashes to the stored digest
+    if let Ok(Ok(Verified::MD5Match)) = guarded(|| verify_reader(altered)) {
+        let ok = match &reference {
+            Ok(st) => refdec::pcm_md5(&st.pcm, st.info.bps) == st.info.md5,
+            // streams a decoder may accept although the strict reference does not: no verdict
+            Err(rej) => MAY_ACCEPT.contains(&rej.code),
+        };
+        if !ok {
+            return Some(("false-md5-match".into(), "verify_reader reports MD5Match although the bytes do not decode to PCM with the stored digest".into()));
+        }
+    }
+    None
+}
+
+fn cum_of(f: &TestFile) -> Vec<usize> {
+    let mut c = 0;
+    f.frames.iter().map(|(_, _, _, bs)| { c += *bs as usize * f.sig.ch as usize; c }).collect()
+}
+
+pub fn run(ctx: &Ctx, acc: &mut Acc) {
+    // ---- (1) bit flips and truncations
+    for f in damage_corpus(ctx.quick) {
+        let cum = cum_of(&f);
+        let case = |kind: &str, at: usize| json!({"kind":"damage","file":f.desc,"quick":ctx.quick,"how":kind,"at":at});
+        // unaltered file must decode (sanity; a failure here is C03's business but would make the rest vacuous)
+        if ctx.shard == 0 {
+            if let Some((c, d)) = judge(&f.bytes, &f.pcm, &cum, usize::MAX) {
+                acc.violation(format!("C05|pristine|{c}"), format!("{}: {d}", f.desc), case("none", 0));
+            }
+        }
+        for bit in f.first_frame * 8..f.bytes.len() * 8 {
+            if !ctx.mine() {
+                continue;
+            }
+            let mut a = f.bytes.clone();
+            a[bit / 8] ^= 0x80 >> (bit % 8);
+            // frame containing the flipped bit: its samples must not be delivered
+            let fi = f.frames.iter().position(|(o, l, _, _)| bit / 8 >= *o && bit / 8 < o + l).unwrap_or(usize::MAX);
+            acc.states += 1;
+            acc.executions += 1;
+            acc.transitions += 5;
+            match judge(&a, &f.pcm, &cum, fi) {
+                None => acc.outcome("flip:reported"),
+                Some((c, d)) => {
+                    acc.outcome(format!("flip:{}", c.split('|').next().unwrap()));
+                    acc.violation(format!("C05|bit-flip|{c}"), format!("{} bit {bit} (byte {}, frame #{fi}): {d}", f.desc, bit / 8), case("flip", bit));
+                }
+            }
+        }
+        for len in 0..f.bytes.len() {
+            if !ctx.mine() {
+                continue;
+            }
+            acc.states += 1;
+            acc.executions += 1;
+            acc.transitions += 5;
+            // frames not completely inside the prefix must not be delivered
+            let fi = f.frames.iter().position(|(o, l, _, _)| o + l > len).unwrap_or(usize::MAX);
+            match judge(&f.bytes[..len], &f.pcm, &cum, fi) {
+                None => acc.outcome(if f.total_known { "cut:known-total:reported" } else { "cut:unknown-total:consistent" }),
+                Some((c, d)) => {
+                    acc.outcome(format!("cut:{}", c.split('|').next().unwrap()));
+                    acc.violation(format!("C05|truncation|{c}"), format!("{} cut at {len}: {d}", f.desc), case("cut", len));
+                }
+            }
+        }
+        // stored MD5 bits (STREAMINFO body offset 8+18 .. +16)
+        if f.total_known {
+            for bit in 0..128usize {
+                if !ctx.mine() {
+                    continue;
+                }
+                let mut a = f.bytes.clone();
+                a[8 + 18 + bit / 8] ^= 0x80 >> (bit % 8);
+                acc.states += 1;
+                acc.executions += 1;
+                acc.transitions += 1;
+                match guarded(|| verify_reader(&a[..])) {
+                    Ok(Ok(Verified::MD5Mismatch)) => acc.outcome("md5bit:mismatch-reported"),
+                    Ok(Ok(Verified::NoMD5)) if a[26..42].iter().all(|b| *b == 0) => acc.outcome("md5bit:nomd5"),
+                    other => {
+                        acc.outcome("md5bit:BAD");
+                        acc.violation("C05|md5|corrupted-digest-not-reported".to_string(), format!("{}: stored MD5 bit {bit} flipped, verify_reader says {other:?}", f.desc), case("md5bit", bit));
+                    }
+                }
+            }
+        }
+    }
+    // ---- (2) must-reject classes with valid checksums
+    let m = menus();
+    let knobs = bad_knobs();
+    for_each_deviation(&m, if ctx.quick { 1 } else { 2 }, |k| {
+        let base = match make_spec(k) {
+            Ok(s) => s,
+            Err(_) => return,
+        };
+        for (ki, knob) in knobs.iter().enumerate() {
+            for which in 0..2usize {
+                if !ctx.mine() {
+                    continue;
+                }
+                let fidx = if which == 0 { 0 } else { base.frames.len() - 1 };
+                if which == 1 && base.frames.len() == 1 {
+                    continue;
+                }
+                let mut spec = base.clone();
+                (knob.apply)(&mut spec, fidx);
+                let clean = match fgen::build(&base) {
+                    Ok(b) => b,
+                    Err(_) => continue,
+                };
+                let b = match fgen::build(&spec) {
+                    Ok(b) => b,
+                    Err(_) => {
+                        acc.dim("unbuildable", 1);
+                        continue;
+                    }
+                };
+                let ch = base.channels as usize;
+                let mut c = 0;
+                let cum: Vec<usize> = base.frames.iter().map(|f| { c += f.pcm[0].len() * ch; c }).collect();
+                // first frame that must not be delivered
+                let bad_from = if !knob.must_reject { usize::MAX } else { match knob.name {
+                    "total-too-small" => base.frames.len() - 1,
+                    "total-too-large" => usize::MAX,
+                    "block>info-max" => { let mx = base.frames.iter().map(|f| f.pcm[0].len()).max().unwrap(); base.frames.iter().position(|f| f.pcm[0].len() == mx).unwrap() }
+                    _ => fidx,
+                } };
+                acc.states += 1;
+                acc.executions += 1;
+                acc.transitions += 5;
+                let axes: Vec<&str> = k.iter().enumerate().filter(|(_, v)| **v != 0).map(|(i, _)| NAMES[i]).collect();
+                let verdict = judge(&b.bytes, &clean.pcm, &cum, bad_from);
+                // a must-reject stream that every reader nevertheless decodes "Ok" is caught inside judge through refdec
+                match verdict {
+                    None => acc.outcome(format!("bad:{}:{}", knob.name, if knob.must_reject { "reported" } else { "consistent" })),
+                    Some((c, d)) => {
+                        acc.outcome(format!("bad:{}:{}", knob.name, c.split('|').next().unwrap()));
+                        acc.violation(format!("C05|{}|{c}", knob.name), format!("malformation '{}' in frame #{fidx} of stream {:?}+{axes:?}: {d}", knob.name, k), json!({"kind":"malformed","bytes":hex(&b.bytes),"pcm":clean.pcm,"cum":cum,"bad_from":bad_from as u64,"knob":ki,"vector":k}));
+                    }
+                }
+            }
+        }
+    });
+    acc.sample(json!({"kind":"damage","file":"enc-ch1-bps16-seek0","how":"flip","at":4000}));
+}
+
+pub fn replay(v: &Value) -> Option<(bool, String)> {
+    match v["kind"].as_str()? {
+        "damage" => {
+            let name = v["file"].as_str()?;
+            let f = damage_corpus(v["quick"].as_bool().unwrap_or(false)).into_iter().find(|f| f.desc == name)?;
+            let cum = cum_of(&f);
+            let at = v["at"].as_u64()? as usize;
+            let r = match v["how"].as_str()? {
+                "flip" => {
+                    let mut a = f.bytes.clone();
+                    a[at / 8] ^= 0x80 >> (at % 8);
+                    let fi = f.frames.iter().position(|(o, l, _, _)| at / 8 >= *o && at / 8 < o + l).unwrap_or(usize::MAX);
+                    judge(&a, &f.pcm, &cum, fi)
+                }
+                "cut" => {
+                    let fi = f.frames.iter().position(|(o, l, _, _)| o + l > at).unwrap_or(usize::MAX);
+                    judge(&f.bytes[..at], &f.pcm, &cum, fi)
+                }
+                "md5bit" => {
+                    let mut a = f.bytes.clone();
+                    a[26 + at / 8] ^= 0x80 >> (at % 8);
+                    match guarded(|| verify_reader(&a[..])) {
+                        Ok(Ok(Verified::MD5Mismatch)) => None,
+                        other => Some(("md5".into(), format!("{other:?}"))),
+                    }
+                }
+                _ => judge(&f.bytes, &f.pcm, &cum, usize::MAX),
+            };
+            Some((r.is_some(), format!("{r:?}")))
+        }
+        "malformed" => {
+            let bytes = unhex(v["bytes"].as_str()?);
+            let pcm = crate::core::ivec(&v["pcm"]);
+            let cum: Vec<usize> = v["cum"].as_array()?.iter().map(|x| x.as_u64().unwrap_or(0) as usize).collect();
+            let bf = v["bad_from"].as_u64()? as usize;
+            let r = judge(&bytes, &pcm, &cum, bf);
+            Some((r.is_some(), format!("{r:?}")))
+        }
+        _ => None,
+    }
+}
